@@ -1,8 +1,194 @@
 import DarkluaModel.Util.Sexp
-/-! Line-protocol handlers for property C12 (stub: nothing modelled yet). -/
+import DarkluaModel.C12.Model
+/-!
+Line-protocol handlers for property C12.
+
+Wire format (S-expressions; byte strings are `x<hex>`):
+```
+pos    ::= (ref <start> <end> <line>) | (ln <bytes> <line>) | (any <bytes>)
+trivia ::= (c <pos>) | (w <pos>)
+token  ::= (tok <pos> (<trivia>*) (<trivia>*))
+tree   ::= (node (<token>*) (<tree>*))
+```
+Requests (`c12.<op> args…`):
+* `read <code> <token>`          → `none` | `(some (<bytes>*))`     — `Token.readAll`
+* `readtree <code> <tree>`       → `none` | `(some ((<bytes>*)*))`  — `Tree.readAll`
+* `inrange <code> <token>`       → `true` | `false`                 — `readAll ≠ none` (= `InRange`, `read_defined_iff`)
+* `op <name> <arg>* <token>`     → `<token>` | `none`               — the token operations
+* `replace <code> <tree>`        → `none` | `(some <tree>)`         — the rule
+* `shift <amount> <tree>`        → `<tree>`
+* `hasref <tree>`                → `true` | `false`
+* `boundary <code> <index>`      → `true` | `false`
+* `dense <span> <denseop>*`      → `none` | `(some <bytes> <lastPushLength> <currentLineLength> <inv>)`
+Ill-formed requests answer `bad-request`.
+-/
 namespace DarkluaModel.C12
 
-def handle (op : String) (_args : List String) : String :=
-  "unknown-op " ++ op
+open DarkluaModel
+
+def bytes? (s : Sexp) : Option (List UInt8) := s.atom?.bind hexToBytes?
+
+def posOf : Sexp → Option Position
+  | .list [.atom "ref", s, e, l] => do
+    pure (.lineNumberReference (← s.nat?) (← e.nat?) (← l.nat?))
+  | .list [.atom "ln", c, l] => do pure (.lineNumber (← bytes? c) (← l.nat?))
+  | .list [.atom "any", c] => do pure (.any (← bytes? c))
+  | _ => none
+
+def triviaOf : Sexp → Option Trivia
+  | .list [.atom "c", p] => do pure { position := ← posOf p, kind := .comment }
+  | .list [.atom "w", p] => do pure { position := ← posOf p, kind := .whitespace }
+  | _ => none
+
+def tokenOf : Sexp → Option Token
+  | .list [.atom "tok", p, .list l, .list r] => do
+    pure { position := ← posOf p, leading := ← l.mapM triviaOf, trailing := ← r.mapM triviaOf }
+  | _ => none
+
+partial def treeOf : Sexp → Option Tree
+  | .list [.atom "node", .list toks, .list kids] => do
+    pure (.node (← toks.mapM tokenOf) (← kids.mapM treeOf))
+  | _ => none
+
+def natS (n : Nat) : Sexp := .atom (toString n)
+
+def posTo : Position → Sexp
+  | .lineNumberReference s e l => .list [.atom "ref", natS s, natS e, natS l]
+  | .lineNumber c l => .list [.atom "ln", .atom (bytesToHex c), natS l]
+  | .any c => .list [.atom "any", .atom (bytesToHex c)]
+
+def triviaTo (t : Trivia) : Sexp :=
+  .list [.atom (match t.kind with | .comment => "c" | .whitespace => "w"), posTo t.position]
+
+def tokenTo (t : Token) : Sexp :=
+  .list [.atom "tok", posTo t.position, .list (t.leading.map triviaTo), .list (t.trailing.map triviaTo)]
+
+partial def treeTo : Tree → Sexp
+  | .node toks kids => .list [.atom "node", .list (toks.map tokenTo), .list (kids.map treeTo)]
+
+def bytesListTo (bs : List (List UInt8)) : Sexp := .list (bs.map fun b => .atom (bytesToHex b))
+
+def boolS (b : Bool) : String := if b then "true" else "false"
+
+def denseOpOf : Sexp → Option DenseOp
+  | .list [.atom "pushStr", c, ns] => do pure (.pushStr (← bytes? c) (← ns.bool?))
+  | .list [.atom "pushChar", c, ns] => do
+    let n ← c.nat?
+    if n < 256 then pure (.pushChar (UInt8.ofNat n) (← ns.bool?)) else none
+  | .list [.atom "mergeChar", c] => do
+    let n ← c.nat?
+    if n < 256 then pure (.mergeChar (UInt8.ofNat n)) else none
+  | .list [.atom "pushStrAndBreakIf", c, p] => do pure (.pushStrAndBreakIf (← bytes? c) (← p.bool?))
+  | .list [.atom "pushCharAndBreakIf", c, p] => do
+    let n ← c.nat?
+    if n < 256 then pure (.pushCharAndBreakIf (UInt8.ofNat n) (← p.bool?)) else none
+  | _ => none
+
+def joinArgs (args : List String) : String := " ".intercalate args
+
+/-- the token operations, by name -/
+def applyOp (name : String) (args : List String) (t : Token) : Option (Option Token) :=
+  match name, args with
+  | "replace_with_content", [c] => (hexToBytes? c).map fun c => some (t.replaceWithContent c)
+  | "shift_token_line", [a] => a.toInt?.map fun a => some (t.shiftTokenLine a)
+  | "clear_comments", [] => some (some t.clearComments)
+  | "clear_whitespaces", [] => some (some t.clearWhitespaces)
+  | "filter_comments_keep_none", [] => some (some (t.filterComments fun _ => false))
+  | "filter_comments_keep_all", [] => some (some (t.filterComments fun _ => true))
+  | "filter_comments_keep_content", [] => some (some (t.filterComments fun tr => tr.tryRead.isSome))
+  | "drain_leading_trivia", [] => some (some t.drainLeadingTrivia)
+  | "drain_trailing_trivia", [] => some (some t.drainTrailingTrivia)
+  | "replace_referenced_tokens", [c] => (hexToBytes? c).map fun c => t.replaceReferencedTokens c
+  | _, _ => none
+
+def handle (op : String) (args : List String) : String :=
+  let bad := "bad-request"
+  match op, args with
+  | "read", code :: rest =>
+    match hexToBytes? code, (Sexp.parse (joinArgs rest)).bind tokenOf with
+    | some code, some t =>
+      match t.readAll code with
+      | some bs => toString (Sexp.list [.atom "some", bytesListTo bs])
+      | none => "none"
+    | _, _ => bad
+  | "readtree", code :: rest =>
+    match hexToBytes? code, (Sexp.parse (joinArgs rest)).bind treeOf with
+    | some code, some t =>
+      match t.readAll code with
+      | some bs => toString (Sexp.list [.atom "some", .list (bs.map bytesListTo)])
+      | none => "none"
+    | _, _ => bad
+  | "inrange", code :: rest =>
+    match hexToBytes? code, (Sexp.parse (joinArgs rest)).bind tokenOf with
+    | some code, some t => boolS (t.readAll code).isSome
+    | _, _ => bad
+  | "boundary", [code, idx] =>
+    match hexToBytes? code, idx.toNat? with
+    | some code, some i => boolS (isCharBoundary code i)
+    | _, _ => bad
+  | "op", name :: rest =>
+    -- the token is the last S-expression: everything from the first "(" on
+    let pre := rest.takeWhile fun a => !a.startsWith "("
+    let tokArgs := rest.dropWhile fun a => !a.startsWith "("
+    match (Sexp.parse (joinArgs tokArgs)).bind tokenOf with
+    | some t =>
+      match name, pre with
+      | "push_leading_trivia", _ | "push_trailing_trivia", _ | "insert_leading_trivia", _ => bad
+      | _, _ =>
+        match applyOp name pre t with
+        | some (some t') => toString (tokenTo t')
+        | some none => "none"
+        | none => bad
+    | none => bad
+  | "optrivia", name :: idx :: rest =>
+    -- `optrivia <push_leading_trivia|push_trailing_trivia|insert_leading_trivia> <index> (<trivia> <token>)`
+    match idx.toNat?, Sexp.parse (joinArgs rest) with
+    | some i, some (.list [tr, tok]) =>
+      match triviaOf tr, tokenOf tok with
+      | some tr, some t =>
+        match name with
+        | "push_leading_trivia" => toString (tokenTo (t.pushLeadingTrivia tr))
+        | "push_trailing_trivia" => toString (tokenTo (t.pushTrailingTrivia tr))
+        | "insert_leading_trivia" => toString (tokenTo (t.insertLeadingTrivia i tr))
+        | _ => bad
+      | _, _ => bad
+    | _, _ => bad
+  | "replace", code :: rest =>
+    match hexToBytes? code, (Sexp.parse (joinArgs rest)).bind treeOf with
+    | some code, some t =>
+      match t.replaceReferencedTokens code with
+      | some t' => toString (Sexp.list [.atom "some", treeTo t'])
+      | none => "none"
+    | _, _ => bad
+  | "shift", amount :: rest =>
+    match amount.toInt?, (Sexp.parse (joinArgs rest)).bind treeOf with
+    | some a, some t => toString (treeTo (t.shiftTokenLine a))
+    | _, _ => bad
+  | "hasref", rest =>
+    match (Sexp.parse (joinArgs rest)).bind treeOf with
+    | some t => boolS t.hasReference
+    | none => bad
+  | "dense", span :: rest =>
+    match span.toNat?, (Sexp.parse ("(" ++ joinArgs rest ++ ")")).bind Sexp.list? with
+    | some span, some ops =>
+      match ops.mapM denseOpOf with
+      | some ops =>
+        if ops.all DenseOp.wellFormed then
+          match (Dense.new span).run ops with
+          | some g => toString (Sexp.list [.atom "some", .atom (bytesToHex g.output), natS g.lastPushLength,
+              natS g.currentLineLength, .atom (boolS g.inv)])
+          | none => "none"
+        else "ill-formed-op"
+      | none => bad
+    | _, _ => bad
+  | "separators", [n, c] =>
+    match n.toNat?, c.toNat? with
+    | some n, some c =>
+      toString (Sexp.list ((separators n c).map fun
+        | .token i => Sexp.list [.atom "token", natS i]
+        | .symbol => .atom "symbol"
+        | .nothing => .atom "nothing"))
+    | _, _ => bad
+  | _, _ => "unknown-op " ++ op
 
 end DarkluaModel.C12
